@@ -291,6 +291,92 @@ def _emit_shard(args):
     return out
 
 
+GOOD_TRACE = [  # recorded once from the unchanged tree; columns: ev, req, item, sock, res, cls, how, q, qs, open, n
+    ["QPut", 0, 0, 0, "ok", "", "", [], [], [], 0],
+    ["ReqStart", 1, 0, 0, "", "", "", [], [], [], 0],
+    ["QGet", 0, 0, 0, "ok", "", "", [], [], [], 0],
+    ["Dial", 0, 0, 1, "ok", "", "", [], [], [], 0],
+    ["Interrupt", 0, 0, 0, "", "", "", [], [], [], 0],
+    ["SockClose", 0, 0, 1, "", "", "", [], [], [], 0],
+    ["QPut", 0, 0, 0, "ok", "", "", [], [], [], 0],
+    ["ReqEnd", 1, 0, 0, "raised", "interrupt", "Interrupt", [], [], [], 0],
+    ["ReqStart", 2, 0, 0, "", "", "", [], [], [], 0],
+    ["QGet", 0, 0, 0, "ok", "", "", [], [], [], 0],
+    ["Dial", 0, 0, 2, "ok", "", "", [], [], [], 0],
+    ["SockClose", 0, 0, 2, "", "", "", [], [], [], 0],
+    ["QPut", 0, 0, 0, "ok", "", "", [], [], [], 0],
+    ["QGet", 0, 0, 0, "ok", "", "", [], [], [], 0],
+    ["Dial", 0, 0, 3, "ok", "", "", [], [], [], 0],
+    ["ReqEnd", 2, 0, 0, "response", "none", "200", [], [], [], 0],
+    ["DispStart", 2, 0, 0, "", "", "read", [], [], [], 0],
+    ["QPut", 0, 1, 3, "ok", "", "", [], [], [], 0],
+    ["DispEnd", 2, 0, 0, "response", "none", "ok", [], [], [], 0],
+    ["Quiesce", 0, 0, 0, "", "", "", [1], [3], [3], 0],
+    ["ProbeStart", 0, 0, 0, "", "", "", [], [], [], 0],
+    ["QGet", 0, 1, 3, "ok", "", "", [], [], [], 0],
+    ["QGet", 0, -1, 0, "empty", "", "", [], [], [], 0],
+    ["QPut", 0, 1, 3, "ok", "", "", [], [], [], 0],
+    ["Probe", 0, 0, 0, "EmptyPoolError", "", "", [], [], [], 1],
+    ["QGet", 0, 1, 3, "ok", "", "", [], [], [], 0],
+    ["SockClose", 0, 0, 3, "", "", "", [], [], [], 0],
+    ["QGet", 0, -1, 0, "empty", "", "", [], [], [], 0],
+]
+
+
+def monitor_selftest():
+    """The monitor must reject corrupted copies of a good trace with the right clause (never silently green)."""
+    keys = ["ev", "req", "item", "sock", "res", "cls", "how", "q", "qs", "open", "n"]
+    good = [dict(zip(keys, row)) for row in GOOD_TRACE]   # a canned trace: independent of the tree under test
+
+    def mutate(f):
+        evs = json.loads(json.dumps(good))
+        f(evs)
+        return evs
+
+    def drop_last_put(evs):
+        qi = max(i for i, e in enumerate(evs) if e["ev"] == "Quiesce")
+        i = max(i for i, e in enumerate(evs[:qi]) if e["ev"] == "QPut")
+        del evs[i]
+        for e in evs:
+            if e["ev"] == "Quiesce":
+                e["q"] = e["q"][:-1]
+                e["qs"] = e["qs"][:-1]
+
+    def raw_error(evs):
+        e = [e for e in evs if e["ev"] == "ReqEnd" and e["req"] == 2][0]
+        e["res"], e["cls"] = "raised", "raw"
+
+    def swallowed_interrupt(evs):
+        e = [e for e in evs if e["ev"] == "ReqEnd" and e["cls"] == "interrupt"][0]
+        e["res"], e["cls"] = "response", "none"
+
+    def never_closed(evs):
+        del evs[[i for i, e in enumerate(evs) if e["ev"] == "SockClose"][0]]
+
+    def peer_sees_open(evs):
+        for e in evs:
+            if e["ev"] == "Quiesce":
+                e["open"] = sorted(set(e["open"]) | {2})
+
+    def put_twice(evs):
+        i = [i for i, e in enumerate(evs) if e["ev"] == "QPut" and e["item"] == 1][0]
+        evs.insert(i, dict(evs[i]))
+
+    def no_probe(evs):
+        evs[:] = [e for e in evs if e["ev"] != "Probe"]
+
+    want = [("ok", 1, lambda evs: None), ("SlotsRestored", 1, drop_last_put), ("OnlyUrllib3Errors", 1, raw_error),
+            ("InterruptsPropagate", 1, swallowed_interrupt), ("BlockBound", 1, never_closed),
+            ("NoOrphanSocket", 1, peer_sees_open), ("NoDuplicate", 2, put_twice), ("Incomplete", 1, no_probe)]
+    batch = [{"cfg": {"n": n, "block": True}, "events": mutate(f)} for _, n, f in want]
+    _, verdicts = validate_traces(json.dumps(batch), len(batch))
+    got = {tid: clause for tid, _, clause in verdicts}
+    for i, (clause, _, _) in enumerate(want, 1):
+        if got.get(i) != clause:
+            raise tlc.MachineryError(f"monitor self-test {i}: expected verdict {clause}, got {got.get(i)}")
+    return [c for c, _, _ in want]
+
+
 # ------------------------------------------------------------------------------ random histories
 def random_scenario(rng, maxreqs=6):
     cfg = {"n": rng.choice([1, 2, 3]), "block": rng.random() < 0.5, "retries": rng.choice(["F", "0", "1", "R2"]),
@@ -363,6 +449,7 @@ def run(rep):
     plans = QUICK_PLANS if quick else THOROUGH_PLANS
     counters = {"events": 0, "clauses": {}, "known": 0}
     rep.extra["tree_traits"] = detect_traits()
+    rep.extra["monitor_selftest"] = monitor_selftest()
     rep.rule = ("a history is non-trivial when it contains a fault, retry, redirect, non-2xx reply, a server cut or a "
                 "disposal other than read-all (i.e. anything but single clean 200 requests read to the end); "
                 "distinct_nontrivial counts distinct (configuration, steps) keys; every history is executed on the real "
